@@ -83,6 +83,8 @@ def schema_risks(s):
         if not isinstance(rec, dict) or rec.get("type") != "record" or not rec.get("fields") or depth > 20:
             return False
         last = deref(rec["fields"][-1]["type"])
+        if isinstance(last, list):      # a union one of whose branches is a record closes the same way
+            return any(isinstance(deref(b), dict) and deref(b).get("type") == "record" for b in last)
         return isinstance(last, dict) and last.get("type") == "record"
 
     # `schema_name in field["type"]` of Parser._process_record, evaluated as Python does
